@@ -128,6 +128,7 @@ pub fn mutate(rng: &mut Rng, v: Version, img: &mut Vec<u8>) -> String {
             img[72..76].copy_from_slice(&nd.to_le_bytes());
             format!("DIFAT chain shape {} through sectors {} {} {}", shape, a, b, c)
         }
+        45..=54 => chain_mutation(rng, v, img),
         10..=14 => {
             // a single byte anywhere
             let off = rng.below(img.len() as u64) as usize;
@@ -139,7 +140,7 @@ pub fn mutate(rng: &mut Rng, v: Version, img: &mut Vec<u8>) -> String {
             // a 32-bit (or 16-bit) field in the header, FAT sector, directory or elsewhere
             let region = if r < 35 {
                 (24usize.min(img.len()), (76 + 16).min(img.len()))
-            } else if r < 55 {
+            } else if r < 62 {
                 (sl.min(img.len()), (sl + 64).min(img.len())) // first FAT cells
             } else if r < 90 {
                 ((2 * sl).min(img.len()), (2 * sl + 128 * 6).min(img.len())) // first directory entries
@@ -171,6 +172,92 @@ pub fn mutate(rng: &mut Rng, v: Version, img: &mut Vec<u8>) -> String {
     }
 }
 
+fn rd32(img: &[u8], off: usize) -> Option<u32> {
+    img.get(off..off + 4).map(|b| u32::from_le_bytes([b[0], b[1], b[2], b[3]]))
+}
+
+/// Rewires the chain of one stream (or of the mini stream / the directory): the
+/// chain is found by following the image's own FAT or MiniFAT from the start
+/// sector a directory entry names, then one cell is redirected so that the chain
+/// closes on its first sector, on an inner sector or on itself, or runs into
+/// another entry's chain.
+fn chain_mutation(rng: &mut Rng, v: Version, img: &mut Vec<u8>) -> String {
+    let sl = v.sector_len();
+    let noop = || "noop".to_string();
+    let fat_sector = match rd32(img, 76) { Some(x) => x as usize, None => return noop() };
+    let fat_off = (fat_sector + 1) * sl;
+    let cells = sl / 4;
+    let fat = |img: &[u8], i: usize| -> Option<u32> { if i < cells { rd32(img, fat_off + 4 * i) } else { None } };
+    let walk = |img: &[u8], start: u32, cell: &dyn Fn(&[u8], usize) -> Option<u32>| -> Vec<usize> {
+        let mut out = Vec::new();
+        let mut cur = start;
+        while cur < 0xFFFF_FFFA && out.len() < 200 && !out.contains(&(cur as usize)) {
+            out.push(cur as usize);
+            cur = match cell(img, cur as usize) { Some(n) => n, None => break };
+        }
+        out
+    };
+    // directory entries, following the directory chain
+    let dstart = match rd32(img, 48) { Some(x) => x, None => return noop() };
+    let dchain = walk(img, dstart, &fat);
+    let mut entries: Vec<(usize, u8, u32, u64)> = Vec::new(); // (offset, type, start, size)
+    for &ds in dchain.iter().take(6) {
+        for k in 0..sl / 128 {
+            let off = (ds + 1) * sl + 128 * k;
+            if off + 128 <= img.len() {
+                let size = u64::from_le_bytes(img[off + 120..off + 128].try_into().unwrap());
+                entries.push((off, img[off + 66], rd32(img, off + 116).unwrap(), size));
+            }
+        }
+    }
+    let mf_start = rd32(img, 60).unwrap_or(0xFFFF_FFFE);
+    let mfchain = walk(img, mf_start, &fat);
+    let mfat = |img: &[u8], i: usize| -> Option<u32> {
+        let s = *mfchain.get(i / cells)?;
+        rd32(img, (s + 1) * sl + 4 * (i % cells))
+    };
+    // candidates: (label, chain, in MiniFAT?)
+    let mut cands: Vec<(String, Vec<usize>, bool)> = Vec::new();
+    for (i, &(_, ty, start, size)) in entries.iter().enumerate() {
+        if ty == 5 {
+            cands.push(("mini stream container".into(), walk(img, start, &fat), false));
+        } else if ty == 2 && size >= 4096 {
+            cands.push((format!("entry {} ({} bytes)", i, size), walk(img, start, &fat), false));
+        } else if ty == 2 && size > 0 {
+            cands.push((format!("entry {} ({} bytes, mini)", i, size), walk(img, start, &mfat), true));
+        }
+    }
+    cands.push(("directory".into(), dchain.clone(), false));
+    cands.push(("MiniFAT".into(), mfchain.clone(), false));
+    cands.retain(|c| !c.1.is_empty());
+    if cands.is_empty() {
+        return noop();
+    }
+    let ci = rng.below(cands.len() as u64) as usize;
+    let other = cands[rng.below(cands.len() as u64) as usize].1.clone();
+    let (label, chain, mini) = cands[ci].clone();
+    let last = *chain.last().unwrap();
+    let mid = chain[rng.below(chain.len() as u64) as usize];
+    let (cell, val, what): (usize, u32, &str) = match rng.below(6) {
+        0 => (last, chain[0] as u32, "last -> first"),
+        1 => (last, mid as u32, "last -> inner"),
+        2 => (mid, chain[0] as u32, "inner -> first"),
+        3 => (mid, mid as u32, "inner -> itself"),
+        4 => (last, other[rng.below(other.len() as u64) as usize] as u32, "last -> another chain"),
+        _ => (mid, 0xFFFF_FFFF, "inner -> FREE"),
+    };
+    let off = if mini {
+        match mfchain.get(cell / cells) { Some(s) => (s + 1) * sl + 4 * (cell % cells), None => return noop() }
+    } else {
+        fat_off + 4 * cell
+    };
+    if cell >= cells * if mini { mfchain.len().max(1) } else { 1 } || off + 4 > img.len() {
+        return noop();
+    }
+    img[off..off + 4].copy_from_slice(&val.to_le_bytes());
+    format!("chain of {}: {} ({}FAT cell {} := {})", label, what, if mini { "Mini" } else { "" }, cell, val)
+}
+
 fn open_result(bytes: &[u8], strict: bool, maxbuf: usize) -> (String, Option<Live>) {
     match std::panic::catch_unwind(|| Live::open(bytes.to_vec(), strict, maxbuf)) {
         Ok(Ok(l)) => ("ok".into(), Some(l)),
@@ -190,6 +277,18 @@ fn ro_ops(live: &mut Live) -> Vec<Op> {
     for (p, is_stream) in paths {
         ops.push(Op::EntryOf(p.clone()));
         if is_stream {
+            // names looked up below a stream: its child field is never a subtree
+            for leaf in ["a", "s0", "zz"] {
+                let q = format!("{}/{}", p.trim_end_matches('/'), leaf);
+                ops.push(Op::Exists(q.clone()));
+                ops.push(Op::EntryOf(q.clone()));
+                ops.push(Op::IsStream(q.clone()));
+                ops.push(Op::OpenStream(0, q.clone()));
+                ops.push(Op::ReadStorage(q.clone()));
+                ops.push(Op::WalkStorage(q));
+            }
+            ops.push(Op::ReadStorage(p.clone()));
+            ops.push(Op::WalkStorage(p.clone()));
             ops.push(Op::Cat(p.clone()));
             ops.push(Op::OpenStream(0, p.clone()));
             ops.push(Op::HSeek(0, Whence::End, -1));
@@ -360,6 +459,92 @@ pub fn run(mode: &str, seed: u64, count: usize, out: &str) -> Report {
         }
         if rep.samples.len() < 3 {
             rep.samples.push(desc);
+        }
+    }
+    w.flush().unwrap();
+    rep
+}
+
+/// Re-runs the inputs of stored traces (B histories: start bytes + the operations of the S
+/// lines) on the crate as it is now and writes a fresh trace for the model.  A panic or a hang
+/// is a failure.  Used for the corpus of minimised failures, which runs before the generated cases.
+pub fn replay(files: &[String], out: &str) -> Report {
+    let mut rep = Report::new();
+    let file = std::fs::File::create(out).unwrap();
+    let mut w = std::io::BufWriter::new(file);
+    for f in files {
+        let text = match std::fs::read_to_string(f) {
+            Ok(t) => t,
+            Err(e) => {
+                rep.fail(format!("corpus file {} unreadable: {}", f, e));
+                continue;
+            }
+        };
+        let mut cur: Option<(String, usize, bool, Vec<u8>, Vec<Op>)> = None;
+        let mut cases = Vec::new();
+        for line in text.lines() {
+            let t: Vec<&str> = line.split_whitespace().collect();
+            match t.first().copied() {
+                Some("B") if t.len() >= 7 => {
+                    cur = Some((t[1].to_string(), t[2].parse().unwrap_or(4096), t[4] == "s", crate::ops::dec_hex(t[6]), Vec::new()));
+                }
+                Some("S") => {
+                    if let Some(c) = cur.as_mut() {
+                        let lhs = line.split(" => ").next().unwrap_or("");
+                        let toks: Vec<&str> = lhs.split_whitespace().collect();
+                        if toks.len() > 2 {
+                            if let Some(op) = Op::decode(&toks[2..].join(" ")) {
+                                c.4.push(op);
+                            }
+                        }
+                    }
+                }
+                Some("E") => {
+                    if let Some(c) = cur.take() {
+                        cases.push(c);
+                    }
+                }
+                _ => {}
+            }
+        }
+        for (id, maxbuf, strict, bytes, ops) in cases {
+            rep.evaluations += 1;
+            rep.distinct.insert(id.clone());
+            let (tx, rx) = mpsc::channel();
+            let id2 = id.clone();
+            std::thread::spawn(move || {
+                let mut buf: Vec<u8> = Vec::new();
+                let mut bad: Vec<String> = Vec::new();
+                let (res, live) = open_result(&bytes, strict, maxbuf);
+                writeln!(buf, "B {} {} {} {} {} {}", id2, maxbuf, NHANDLES, if strict { "s" } else { "p" }, res, enc_hex(&bytes)).unwrap();
+                if res == "panic" {
+                    bad.push("open panicked".into());
+                }
+                if let Some(mut live) = live {
+                    let mut tr = Tracer { out: &mut buf, last_img: bytes.clone(), step: 0, with_images: true };
+                    for op in ops {
+                        let r = tr.exec(&mut live, &op);
+                        if r == "panic" {
+                            bad.push(format!("panic in [{}]", op.encode().chars().take(80).collect::<String>()));
+                            break;
+                        }
+                    }
+                }
+                writeln!(buf, "E").unwrap();
+                let _ = tx.send((buf, bad));
+            });
+            match rx.recv_timeout(Duration::from_secs(20)) {
+                Ok((buf, bad)) => {
+                    w.write_all(&buf).unwrap();
+                    for b in bad {
+                        rep.fail(format!("corpus {} history {}: {}", f, id, b));
+                    }
+                }
+                Err(_) => {
+                    rep.fail(format!("corpus {} history {}: TIMEOUT (hang)", f, id));
+                    break;
+                }
+            }
         }
     }
     w.flush().unwrap();
